@@ -307,6 +307,9 @@ func (d *V1) do(op Op) Resp {
 	case KPut:
 		in := &dynamodb.PutItemInput{TableName: aws.String(op.Table), Item: ItemToV1(op.Item),
 			ConditionExpression: op.CondText(), ExpressionAttributeNames: namesV1(op.Names), ExpressionAttributeValues: ItemToV1(op.Values)}
+		if op.RetVals != "" {
+			in.ReturnValues = aws.String(op.RetVals)
+		}
 		_, err := c.PutItem(in)
 		return errResp(err)
 	case KUpd:
@@ -323,6 +326,9 @@ func (d *V1) do(op Op) Resp {
 			ConditionExpression: op.CondText(), ExpressionAttributeNames: namesV1(op.Names), ExpressionAttributeValues: ItemToV1(op.Values)}
 		if op.AllOld {
 			in.ReturnValues = aws.String("ALL_OLD")
+		}
+		if op.RetVals != "" {
+			in.ReturnValues = aws.String(op.RetVals)
 		}
 		out, err := c.DeleteItem(in)
 		if err != nil {
@@ -355,6 +361,9 @@ func (d *V1) do(op Op) Resp {
 	case KScan:
 		in := &dynamodb.ScanInput{TableName: aws.String(op.Table), FilterExpression: op.FilterText(),
 			ExpressionAttributeNames: namesV1(op.Names), ExpressionAttributeValues: ItemToV1(op.Values), ExclusiveStartKey: ItemToV1(op.ESK)}
+		if op.ProjStr != nil {
+			in.ProjectionExpression = aws.String(*op.ProjStr)
+		}
 		if op.Index != "" {
 			in.IndexName = aws.String(op.Index)
 		}
